@@ -530,8 +530,7 @@ MUTANTS = [
     dict(id="C18-M7", file=_IV, old="        return torch.stack((torch.min(lb), torch.max(ub)), dim=0)", new="        return torch.stack((torch.max(lb), torch.max(ub)), dim=0)", rule="R-C18-1", what="lower end uses max over rows"),
     dict(id="C18-M8", file=_RS, old="                bounding_box[2 * i],\n                bounding_box[2 * i + 1],", new="                bounding_box[i],\n                bounding_box[i + 1],", rule="R-C18-5", what="LHS reads the wrong entries"),
     dict(id="C18-M9", file=_PA, old="        corner_3 = corner_1 + corner_2 - origin\n        bounds = []", new="        corner_3 = corner_1 + corner_2\n        bounds = []", rule="R-C18-2", what="fourth corner without origin correction"),
-    dict(id="C18-M10", file=_P, old="        if self.bounds:\n            return self.bounds\n        elif self._is_constant or self.domain_b.space in params.space:\n            bounds_a = self.domain_a.bounding_box(params, device=device)\n            bounds_b = self.domain_b.bounding_box(params, device=device)\n            bounds_a = torch.cat((bounds_a, bounds_b))",
-         new="        if self.bounds is not None:\n            return self.bounds\n        elif self._is_constant or self.domain_b.space in params.space:\n            bounds_a = self.domain_a.bounding_box(params, device=device)\n            bounds_b = self.domain_b.bounding_box(params, device=device)\n            bounds_a = torch.cat((bounds_a, bounds_b))\n            self.bounds = bounds_a", rule="R-C10-7", what="parameter-dependent box cached"),
+    dict(id="C18-M10", file=_P, old="            bounds_a = torch.cat((bounds_a, bounds_b))\n        else:  # we have to sample", new="            bounds_a = torch.cat((bounds_a, bounds_b))\n            self.bounds = bounds_a\n        else:  # we have to sample", rule="R-C10-7", what="parameter-dependent box cached"),
 ]
 TWINS = [
     dict(id="C18-T1", file=_PA, old="            for corner in [origin, corner_1, corner_2, corner_3]:", new="            for corner in [corner_3, corner_2, origin, corner_1]:", what="corners in another order"),
